@@ -178,12 +178,24 @@ def _work(arg):
             return name, 'not-applicable', 'anchor text not found (source changed)'
         open(p, 'w').write(s.replace(old, new))
         failed = []
+        from .engine import Unsupported
         for q in fns:
-            r = run.verify_function((q, tmp, timeout_ms, 0))
-            if 'extraction_failure' in r:
+            # (stops at the first obligation that fails: one is enough, and a broken body can fail dozens)
+            try:
+                E = run.build_engine(tmp, timeout_ms, 0)
+                E.escalations_left = 0
+                obls, info, _ = E.verify(q)
+            except Unsupported as e:
                 failed.append('%s: extraction failure' % q)
                 continue
-            failed += [o['name'] for o in r['obligations'] if o['status'] != 'discharged'][:3]
+            except Exception as e:
+                failed.append('%s: extraction failure (internal: %s)' % (q, type(e).__name__))
+                continue
+            for o in obls:
+                E.discharge(o)
+                if o.status != 'discharged':
+                    failed.append(o.name)
+                    break
         return name, ('detected' if failed else 'MISSED'), '; '.join(failed[:3])
     finally:
         shutil.rmtree(tmp, ignore_errors=True)
